@@ -92,14 +92,15 @@ LatestLocs(r) == UNION {Places[l] : l \in DOMAIN r.src \cap Lines}
 UncondAt(r, p) == \E k \in RCover(r, Exec[p]) : ROpt(r, k) = "none"
 
 \* run from position `from` (exclusive): [pos, st, outs, hits, stop]
-RECURSIVE RRun(_, _, _, _)
-RRun(r, p, hits, outs) ==
-  IF p > N THEN [pos |-> N + 1, st |-> "exited", outs |-> outs, hits |-> hits, stop |-> "exit"]
+\* nopt counts the arrivals decided by an option (selection guidance for the replay, not an observable)
+RECURSIVE RRunN(_, _, _, _, _)
+RRunN(r, p, hits, outs, nopt) ==
+  IF p > N THEN [pos |-> N + 1, st |-> "exited", outs |-> outs, hits |-> hits, stop |-> "exit", nopt |-> nopt]
   ELSE LET a == Exec[p]
            cov == RCover(r, a)
            dataStop == HwDelivers /\ r.data # {} /\ (p - 1) \in WritePos
-       IN IF dataStop THEN [pos |-> p, st |-> "stopped", outs |-> outs, hits |-> hits, stop |-> "data"]
-          ELSE IF cov = {} THEN RRun(r, p + 1, hits, outs)
+       IN IF dataStop THEN [pos |-> p, st |-> "stopped", outs |-> outs, hits |-> hits, stop |-> "data", nopt |-> nopt]
+          ELSE IF cov = {} THEN RRunN(r, p + 1, hits, outs, nopt)
           ELSE LET k == CHOOSE x \in cov : TRUE
                    o == ROpt(r, k)
                    h == hits[k] + 1
@@ -108,8 +109,10 @@ RRun(r, p, hits, outs) ==
                               [] o = "hit2" -> h = 2
                               [] o = "log" -> FALSE
                               [] OTHER -> CondHolds(o, p)
-               IN IF stops THEN [pos |-> p, st |-> "stopped", outs |-> outs, hits |-> hits2, stop |-> Loc[a]]
-                  ELSE RRun(r, p + 1, hits2, IF o = "log" THEN Append(outs, Loc[a]) ELSE outs)
+                   n2 == IF o = "none" THEN nopt ELSE nopt + 1
+               IN IF stops THEN [pos |-> p, st |-> "stopped", outs |-> outs, hits |-> hits2, stop |-> Loc[a], nopt |-> n2]
+                  ELSE RRunN(r, p + 1, hits2, IF o = "log" THEN Append(outs, Loc[a]) ELSE outs, n2)
+RRun(r, p, hits, outs) == RRunN(r, p, hits, outs, 0)
 
 RApplyRun(r, res) == [r EXCEPT !.st = res.st, !.pos = res.pos, !.hits = res.hits]
 RObs(res) == [outs |-> res.outs, stop |-> res.stop]
@@ -298,7 +301,7 @@ RunAct(cmd, from, rres, ires) ==
   /\ last' = [kind |-> "run", cmd |-> cmd, from |-> from, robs |-> RObs(rres),
               iobs |-> [c \in Cfgs |-> [outs |-> ires[c].outs, stop |-> ires[c].stop]],
               muted |-> [c \in Cfgs |-> impl[c].term]]
-  /\ Log(cmd, <<>>, RObs(rres), [c \in Cfgs |-> [outs |-> ires[c].outs, stop |-> ires[c].stop]])
+  /\ Log(cmd, <<>>, [outs |-> rres.outs, stop |-> rres.stop, nopt |-> rres.nopt], [c \in Cfgs |-> [outs |-> ires[c].outs, stop |-> ires[c].stop]])
   /\ nreq' = nreq + 1
 
 ConfigurationDone ==
